@@ -34,7 +34,8 @@ AltRand(n, s) ==
   \* over the empty rest (the implementation) or an empty list; C06 speaks of the body's runs and of what is left at the end
   ELSE IF n = "INTVECTOR.LOOP" /\ Has(s, "ivec", 1) /\ Has(s, "exec", 1) /\ Len(s.ivec[1]) = 1
   THEN LET s2 == PopN(PopN(s, "ivec", 1), "exec", 1) IN
-       <<Fired(PushOn(SetF(s2, "exec", <<s.exec[1], EmptyList>> \o s2.exec), "int", s.ivec[1][1]))>>
+       <<Fired(PushOn(SetF(s2, "exec", <<s.exec[1], EmptyList>> \o s2.exec), "int", s.ivec[1][1])),
+         Fired(PushOn(SetF(s2, "exec", <<s.exec[1]>> \o s2.exec), "int", s.ivec[1][1]))>>      \* (or nothing at all)
   ELSE <<>>
 
 ApplyRand(n, s) ==
